@@ -97,6 +97,13 @@ theorem persistent_load (w : List (Key × Val)) (ps : PSt) : persistent (load w 
 
 theorem persistent_restart (s : St) : persistent (restart s) = persistent s := rfl
 
+/-- a restart is: reload the persistent image into a fresh engine (every field of the engine state
+    is either stored or reset; the model's observation counters are carried over).  This statement
+    stops compiling when a field is added to the engine state without deciding which it is. -/
+theorem restart_is_reload (s : St) :
+    restart s = { load s.world (persistent s) with log := s.log, choicePoints := s.choicePoints, tapePos := s.tapePos } := by
+  cases s; rfl
+
 /-- nothing is in flight: no query is computing and no backward-projection lock is held -/
 def Quiescent (s : St) : Prop := s.computing = [] ∧ s.bpLock = [] ∧ s.tfcStack = []
 
@@ -107,11 +114,43 @@ theorem restart_quiescent {s : St} (h : Quiescent s) :
     restart s = { s with dirtied := [], dirtiedEdges := 0 } := by
   obtain ⟨h1, h2, h3⟩ := h
   cases s
-  simp only [restart, load, persistent] at *
+  simp only [restart] at *
   subst h1; subst h2; subst h3; rfl
 
 theorem restart_idem (s : St) : restart (restart s) = restart s := rfl
 
 theorem restart_quiescent' (s : St) : Quiescent (restart s) := ⟨rfl, rfl, rfl⟩
+
+-- ------------------------------------------------------------------ histories of the full model
+
+/-- histories of the full model with restarts: values returned by the rounds -/
+inductive HOp | sess (ws : List Write) | round (ks : List Key) | restart
+
+def runH (t : Toggles) (p : Program) : List HOp → PS → Option (List (List Val))
+  | [], _ => some []
+  | .restart :: r, ps => runH t p r (restartP ps)
+  | .sess ws :: r, ps => match runP (sessionP p ws) ps with
+    | .ok (_, ps') => runH t p r ps'
+    | .error _ => none
+  | .round ks :: r, ps => match runP (roundP t p ks) ps with
+    | .ok (vs, ps') => (runH t p r ps').map (vs :: ·)
+    | .error _ => none
+
+/-- inputs `i`=0, `j`=1, `sel`=2;  `y`=3 reads `i` (always 0);  firewall `F`=4 reads `j`;
+    `x`=5 = `y` + (`F` if `sel`=1);  `Q`=6 reads `x`  (corpus/C07-F20-dirtied-after-F1.txt) -/
+def witnessProgram : Program := [
+  { kind := .input, dflt := 0, prog := .ret 0 },
+  { kind := .input, dflt := 0, prog := .ret 0 },
+  { kind := .input, dflt := 0, prog := .ret 0 },
+  { kind := .normal, dflt := -1, prog := .ask 0 fun _ => .ret 0 },
+  { kind := .firewall, dflt := -2, prog := .ask 1 fun v => .ret v },
+  { kind := .normal, dflt := -1, prog := .ask 3 fun a => .ask 2 fun s => if s = 1 then .ask 4 fun f => .ret (a + f) else .ret a },
+  { kind := .normal, dflt := -1, prog := .ask 5 fun v => .ret v } ]
+
+def witnessBefore : List HOp :=
+  [.sess [.set 0 0, .set 1 10, .set 2 0], .round [6], .sess [.set 2 1], .round [5],
+   .sess [.set 1 20, .set 0 1], .round [6]]
+
+def witnessAfter : List HOp := [.round [4], .sess [], .round [6]]
 
 end Qbice.Persist
